@@ -645,6 +645,11 @@ def run(ctx):
     ctx.require('call_timeouts_observed', 5)
     for cls in ('correct', 'duplicate', 'zero', 'foreign', 'never_issued'):
         ctx.require('acks_' + cls, 3)
+    # two threads emitting with callbacks at the same time (handlers run in
+    # a thread each): distinct ids, each callback once with its own ACK
+    from checks import ackid_sched
+    ctx.require('ack_id_race_schedules', 30)
+    ackid_sched.run_part(ctx, 'client', (ctx.budget or 30) * 0.12)
     k = 0
     while not ctx.out_of_time() and not ctx.too_many_violations():
         run_case(ctx, k)
@@ -653,4 +658,7 @@ def run(ctx):
 
 
 def replay(ctx, w):
+    if w['witness'].get('part') == 'ack_id_race':
+        from checks import ackid_sched
+        return ackid_sched.replay(ctx, w)
     run_case(ctx, w['witness']['case_index'])
